@@ -184,6 +184,11 @@ def extra_forms():
         k += 1
         out.append(Case("c11x%d" % k, wrap("allOf", lst, defs), docs_of(goods, bads), fam="allOf/" + tag))
     anyl = [{"type": ["null", "object"], "properties": {"x": {"type": "integer", "minimum": 1}}, "required": ["x"]}, {"type": "object", "properties": {"y": {"type": "string", "minLength": 2}}, "required": ["y"]}]
+    sh0 = {"type": "object", "properties": {"id": {"type": "string"}, "kind": {"type": "string"}}, "required": ["id"]}
+    sh1 = {"type": "object", "properties": {"id": {"type": "string", "minLength": 8}, "token": {"type": "string"}}, "required": ["id", "token"]}
+    sh2 = {"type": "object", "properties": {"id": {"type": "string", "maxLength": 1}, "n": {"type": "integer"}}, "required": ["n"]}
+    for oi, lst in enumerate(([sh0, sh1], [sh1, sh0], [sh0, sh2, sh1])):
+        out.append(Case("c11xo%d" % oi, wrap("anyOf", lst), docs_of([{"id": "ab"}, {"id": "abcdefgh", "token": "t"}], [{"kind": "k"}, {"token": "t"}, {}]), fam="anyOf/shared-property"))
     out.append(Case("c11x99", wrap("anyOf", anyl), docs_of([{"x": 1}, {"y": "ab"}], [{}, {"x": 0}, {"y": "a"}]), fam="anyOf/nullable-object-first"))
     return out
 
